@@ -1,8 +1,9 @@
 from common import *
 from regcommon import *
 ID = 'C01'
-TRANSLATORS = []
-COQ_TARGETS = ['Properties_C01.vo']
+TRANSLATORS = [('consts2coq.py', ['coq/Gen/Consts.v'])]
+GEN_FILES = ['coq/Gen/Consts.v']
+COQ_TARGETS = ['Properties_C01.vo', 'Proof/ConstsReg.vo']
 HARNESS_MODS = ['reg']
 RULE = ('case = reg.run <big-endian?> <areas> <initial words> <entries> <ops>: a register table built from a textual description (memory- or callback-backed areas on exact-size heap blocks, '
         'registers with trivial/fail/min/max/range/callback constraints), then a history of operations; after EVERY operation the result class (success / refused / refused-as-NOENTRY / '
